@@ -69,11 +69,29 @@ def write_tape(files):
     return [int(b) for b in c.get_buffer()]
 
 
+def write_tape_vf(files):
+    """the same through the host layer (what the command line tools do): VirtualFile on a new host file, add every file, save"""
+    import tempfile, shutil
+    from cocoasm.virtualfiles.virtual_file import VirtualFile, VirtualFileType
+    from cocoasm.virtualfiles.source_file import SourceFile, SourceFileType
+    W = tempfile.mkdtemp(prefix="tapevf", dir=os.environ.get("VERIF_SCRATCH"))
+    try:
+        path = os.path.join(W, "t.cas")
+        vf = VirtualFile(SourceFile(path, file_type=SourceFileType.BINARY), VirtualFileType.CASSETTE)
+        vf.open_virtual_file()
+        for f in files:
+            vf.add_coco_file(to_coco(f))
+        vf.save_virtual_file(append_mode=False)
+        return list(open(path, "rb").read()) if os.path.exists(path) else []
+    finally:
+        shutil.rmtree(W, ignore_errors=True)
+
+
 def tape_case(args):
-    """tool writes the tape, tool lists it back"""
+    """tool writes the tape (every third one through the host layer), tool lists it back"""
     tid, files = args
     try:
-        buf = write_tape(files)
+        buf = write_tape_vf(files) if tid % 3 == 2 else write_tape(files)
         werr = ""
     except Exception as e:
         buf, werr = [], type(e).__name__ + ":" + str(e)[:60]
@@ -85,7 +103,8 @@ def random_tape_files(rnd, lengths=None, maxfiles=4):
     nf = rnd.choice([0, 1, 1, 2, 3, maxfiles])
     out = []
     for _ in range(nf):
-        name = rnd.choice(["A", "HELLO", "ABCDEFGH", "ABCDEFGHIJKL", "", "U<", "lower", "MiXeD1", "12345678", "X" * rnd.randint(1, 12)])
+        # (a tape may hold several files of the same name, and names that differ only in case or behind the 8th character)
+        name = rnd.choice(["A", "HELLO", "ABCDEFGH", "ABCDEFGHIJKL", "", "U<", "lower", "MiXeD1", "12345678", "X" * rnd.randint(1, 12), "HELLO", "hello", "ABCDEFGHZZ"])
         n = rnd.choice(lengths)
         out.append(mkfile(name, content(rnd, rnd.choice(["ramp", "55", "3c", "marker", "rand", "00"]), n), rnd.choice([0, 1, 2, 3]), rnd.choice([0, 255]),
                           rnd.choice([0, 0x0E00, 0x553C, 0x3C00, 0x0055, 0xFFFF]), rnd.choice([0, 0x0E00, 0x3C55, 0x5500]), gap=rnd.choice([0, 0, 0, 255])))
